@@ -383,6 +383,31 @@ func runCheck(o *checkOpts) int {
 		}(ob)
 	}
 	wg.Wait()
+	// Second chance for obligations that ran out of time (not refuted, not given up by the solver):
+	// on a loaded machine a proof that takes a few seconds can miss the cap. They are tried once
+	// more, few at a time, with three times the cap; the verdict of the second run stands.
+	var late []*Obligation
+	for _, ob := range all {
+		if ob.Verdict == "timeout" && !ob.ExpectFail && ob.Kind != "bind" {
+			late = append(late, ob)
+		}
+	}
+	if len(late) > 0 && len(late) <= 40 {
+		fmt.Fprintf(os.Stderr, "%d obligation(s) timed out; second run with %ds each\n", len(late), 3*o.timeout)
+		sem2 := make(chan struct{}, 4)
+		for _, ob := range late {
+			wg.Add(1)
+			sem2 <- struct{}{}
+			go func(ob *Obligation) {
+				defer wg.Done()
+				defer func() { <-sem2 }()
+				first := ob.Secs
+				ob.Discharge(tmp, 3*o.timeout, o.tier == "thorough")
+				ob.Secs += first
+			}(ob)
+		}
+		wg.Wait()
+	}
 	// classify
 	known := loadKnownFindings(filepath.Join(o.verif, "known_findings.jsonl"))
 	knownSet := map[string]KnownFinding{}
